@@ -1185,6 +1185,196 @@ func c5rxTable(t *c5type, vals []c5value) (string, error) {
 	return emit.List(items), nil
 }
 
+// ---- unions of integer types ------------------------------------------------------------------
+
+type c5member struct {
+	kind string
+	rng  []c5alt
+	txt  string
+}
+
+// member kinds whose conversion checks the range (see c5scalars)
+var c5unionKinds = []string{"int8", "int16", "uint8", "uint16", "uint32"}
+
+func c5union(ctx *core.Ctx, r *gen.Rng) {
+	n := 1 + r.Intn(3)
+	ms := make([]c5member, n)
+	restricted := r.Chance(1, 2)
+	for i := range ms {
+		ms[i].kind = gen.Pick(r, c5unionKinds)
+		if restricted && r.Chance(2, 3) {
+			lo, hi := c5dom(ms[i].kind)
+			ms[i].rng = c5alts(r, c5points(r, lo, hi, 2+r.Intn(4)), 0, true)
+			ms[i].txt = c5exprText(r, ms[i].rng)
+		}
+	}
+	var y strings.Builder
+	y.WriteString("module m { prefix \"\"; namespace \"\"; revision 0;\n  leaf l { type union {")
+	for _, m := range ms {
+		if m.rng != nil {
+			fmt.Fprintf(&y, " type %s { range %q; }", m.kind, m.txt)
+		} else {
+			fmt.Fprintf(&y, " type %s;", m.kind)
+		}
+	}
+	y.WriteString(" } }\n}\n")
+	var mod *meta.Module
+	var loadErr error
+	func() {
+		defer func() {
+			if rec := recover(); rec != nil {
+				loadErr = fmt.Errorf("panic: %v", rec)
+			}
+		}()
+		mod, loadErr = parser.LoadModuleFromString(nil, y.String())
+	}()
+	loaded := loadErr == nil && mod != nil
+	// candidates: bounds and neighbours, extremes of every member and one beyond, zero
+	seen := map[string]bool{}
+	var cands []*big.Int
+	add := func(z *big.Int) {
+		if !seen[z.String()] {
+			seen[z.String()] = true
+			cands = append(cands, z)
+		}
+	}
+	one := big.NewInt(1)
+	for _, m := range ms {
+		lo, hi := c5dom(m.kind)
+		for _, z := range []*big.Int{lo, hi, new(big.Int).Sub(lo, one), new(big.Int).Add(hi, one)} {
+			add(z)
+		}
+		for _, a := range m.rng {
+			for _, b := range []c5bound{a.lo, a.hi} {
+				if b.kw == 0 {
+					for d := int64(-1); d <= 1; d++ {
+						add(new(big.Int).Add(b.m, big.NewInt(d)))
+					}
+				}
+			}
+		}
+	}
+	add(big.NewInt(0))
+	for i := len(cands) - 1; i > 0; i-- {
+		j := r.Intn(i + 1)
+		cands[i], cands[j] = cands[j], cands[i]
+	}
+	if len(cands) > 12 {
+		cands = cands[:12]
+	}
+	mterms := make([]string, len(ms))
+	for i, m := range ms {
+		mterms[i] = emit.Pair(emit.Pair(c5kindCoq(m.kind), c5optText(m.rng != nil, m.txt)), c5altsTerm(m.rng, m.rng != nil))
+	}
+	type urow struct {
+		z    *big.Int
+		obs  []c5obs
+		term string
+	}
+	var rows []urow
+	if loaded {
+		for _, z := range cands {
+			row := urow{z: z}
+			// the format ConvOneOf picks: first member whose domain holds z
+			var want val.Value
+			for _, m := range ms {
+				lo, hi := c5dom(m.kind)
+				if z.Cmp(lo) >= 0 && z.Cmp(hi) <= 0 {
+					f, _ := val.TypeAsFormat(m.kind)
+					want, _ = val.Conv(f, z.Int64())
+					break
+				}
+			}
+			for p, write := range []func(b *node.Browser) error{
+				func(b *node.Browser) error {
+					n, _ := nodeutil.ReadJSON(`{"l":` + z.String() + `}`)
+					return b.Root().UpsertFrom(n)
+				},
+				func(b *node.Browser) error {
+					sel, err := b.Root().Find("l")
+					if err != nil {
+						return err
+					}
+					return sel.SetValue(z.Int64())
+				},
+				func(b *node.Browser) error {
+					n, err := nodeutil.ReadXMLDoc(strings.NewReader("<m><l>" + z.String() + "</l></m>"))
+					if err != nil {
+						return err
+					}
+					return b.Root().UpsertFrom(n)
+				},
+				func(b *node.Browser) error {
+					return b.Root().UpsertFrom(nodeutil.ReflectChild(map[string]interface{}{"l": z.Int64()}))
+				},
+			} {
+				data := map[string]interface{}{}
+				b := node.NewBrowser(mod, nodeutil.ReflectChild(data))
+				o := c5obs{path: p}
+				func() {
+					defer func() {
+						if rec := recover(); rec != nil {
+							o.outcome = 2
+							o.errText = fmt.Sprint(rec)
+						}
+					}()
+					if err := write(b); err != nil {
+						o.outcome = 1
+						o.errText = err.Error()
+					}
+				}()
+				// look at the map itself: reading a union leaf back through the library converts
+				// the stored native again (and uint16 -> int16 wraps there, property C10)
+				raw, present := data["l"]
+				switch {
+				case want != nil && present && fmt.Sprint(raw) == z.String() && fmt.Sprintf("%T", raw) == fmt.Sprintf("%T", want.Value()):
+					o.store = 1
+				case !present:
+					o.store = 0
+				default:
+					o.store = 2
+				}
+				row.obs = append(row.obs, o)
+				ctx.Count(fmt.Sprintf("union-path%d:outcome%d", p, o.outcome))
+			}
+			obsT := make([]string, len(row.obs))
+			for i, o := range row.obs {
+				obsT[i] = emit.Pair(emit.Z(int64(o.outcome)), emit.Z(int64(o.store)))
+			}
+			row.term = emit.Pair(emit.ZBig(z), emit.List(obsT))
+			rows = append(rows, row)
+		}
+	}
+	rowDesc := func(row urow) map[string]interface{} {
+		var obs []string
+		for _, o := range row.obs {
+			obs = append(obs, fmt.Sprintf("%s: outcome=%d store=%d %s", []string{"UpsertFrom(JSON)", "SetValue(int64)", "UpsertFrom(XML)", "UpsertFrom(reflect node)"}[o.path], o.outcome, o.store, o.errText))
+		}
+		return map[string]interface{}{"value": row.z.String(), "observations": obs,
+			"codes": "outcome 0 accepted / 1 rejected / 2 panic; store 0 absent as before / 1 holds the written number / 2 other"}
+	}
+	ctx.Count("base:union")
+	idx := ctx.N()
+	if ctx.Explode == idx && len(rows) > 0 {
+		for _, row := range rows {
+			ctx.Add(emit.App("CUnion", emit.List(mterms), emit.Bool(loaded), emit.List([]string{row.term})),
+				map[string]interface{}{"kind": "row", "module": y.String(), "write": rowDesc(row)}, true)
+		}
+		return
+	}
+	terms := make([]string, len(rows))
+	for i, row := range rows {
+		terms[i] = row.term
+	}
+	desc := map[string]interface{}{"kind": "table", "module": y.String(), "loaded": loaded, "values": len(rows)}
+	if loadErr != nil {
+		desc["load_error"] = loadErr.Error()
+	}
+	ctx.Add(emit.App("CUnion", emit.List(mterms), emit.Bool(loaded), emit.List(terms)), desc, len(rows) > 0)
+	ctx.Hist["rows"] += len(rows)
+	ctx.Hist["writes"] += 4 * len(rows)
+}
+
 func C05(ctx *core.Ctx) error {
 	ctx.Imports = "Restrict.RangeParse Restrict.Model Restrict.Spec Check.C05Check"
 	ctx.Rule = "one case per generated type (leaf or leaf-list, typedef chain depth 0-3, restriction expressions printed from generated syntax); rows = candidate values (every bound and its neighbours, type extremes and one beyond, random) x write paths " + strings.Join(c5pathNames, ", ") + "; distinct = by SHA-256 of the case term; non-trivial = the module loaded and at least one value was written, or the expression was invalid on purpose"
@@ -1327,6 +1517,10 @@ func C05(ctx *core.Ctx) error {
 		for _, row := range rows {
 			ctx.Hist["writes"] += len(row.obs)
 		}
+	}
+	ur := r.Fork(777)
+	for i := 0; i < ctx.Scale(6, 80); i++ {
+		c5union(ctx, ur.Fork(uint64(i)+1))
 	}
 	return nil
 }
